@@ -1494,6 +1494,7 @@ int32_t tls13WriteNewSessionTicket(ssl_t *ssl, sslBuf_t *out)
             &ticketLen);
     if (rc < 0)
     {
+        psDynBufUninit(&nstBuf);
         goto out_internal_error;
     }
 
@@ -1518,9 +1519,16 @@ int32_t tls13WriteNewSessionTicket(ssl_t *ssl, sslBuf_t *out)
         rc = tls13WriteEarlyData(ssl, &extBuf, ssl->tls13SessionMaxEarlyData);
         if (rc < 0)
         {
+            psDynBufUninit(&extBuf);
+            psDynBufUninit(&nstBuf);
             return rc;
         }
         extData = psDynBufDetachPsSize(&extBuf, &extDataLen);
+        if (extData == NULL)
+        {
+            psDynBufUninit(&nstBuf);
+            goto out_internal_error;
+        }
     }
     psDynBufAppendTlsVector(&nstBuf,
             0, (1 << 16) - 1,
